@@ -127,7 +127,49 @@ func validDoc(r *rng, f string) []byte {
 	panic("format")
 }
 
+// shrinkField: one field of one line (between two of the separators the text formats use) is cut down to its first
+// 0..2 bytes or to its last byte: "&H00FFFFFF" becomes "", "&", "&H" or "F" — what code that indexes into a value it
+// expects to be longer trips over
+func shrinkField(r *rng, d []byte) []byte {
+	if len(d) == 0 {
+		return d
+	}
+	const seps = ",:;= \t<>\"&{}\\\r\n"
+	i := r.intn(len(d))
+	a, b := i, i
+	for a > 0 && !strings.ContainsRune(seps, rune(d[a-1])) {
+		a--
+	}
+	for b < len(d) && !strings.ContainsRune(seps, rune(d[b])) {
+		b++
+	}
+	if b-a < 2 {
+		// a separator-only spot: widen to the neighbouring field including one separator
+		for b < len(d) && b-a < 12 && d[b] != '\n' {
+			b++
+		}
+	}
+	field := d[a:b]
+	var keep []byte
+	switch r.intn(4) {
+	case 0:
+	case 1:
+		keep = field[:1]
+	case 2:
+		keep = field[:minI(2, len(field))]
+	default:
+		keep = field[len(field)-1:]
+	}
+	return append(append(append([]byte(nil), d[:a]...), keep...), d[b:]...)
+}
+
 func damage(r *rng, f string, d []byte) []byte {
+	if f != "ts" && f != "stl" && r.chance(1, 4) {
+		d = shrinkField(r, d)
+		if r.bool() {
+			return d
+		}
+	}
 	switch r.intn(6) {
 	case 0: // truncation
 		if len(d) > 0 {
